@@ -235,8 +235,31 @@ pub fn emit_maps_after_import_move(name: &str, wasm: &[u8], out: &mut Vec<Json>)
         Some(None) => {}, None => out.push(v("walrus-panics-on-valid-module", "C02 C19", format!("{}: moving an import then emitting panics", name), wasm, String::new(), String::new())) }
 }
 
+/// C19 / C04 / C02: entities imported through the API AFTER parsing sit behind the local ones in their arenas; emission still lists every entity exactly
+/// once (imports first) and the emit-time maps agree with the binary
+pub fn emit_maps_after_import_added(name: &str, wasm: &[u8], out: &mut Vec<Json>) {
+    let a = match amod::decode(wasm) { Ok(a) => a, Err(_) => return };
+    let r = catch(|| { let mut m = Module::from_buffer(wasm).ok()?;
+        let ty = m.types.iter().next().map(|t| t.id());
+        if let Some(ty) = ty { m.add_import_func("added", "f", ty); }
+        m.add_import_table("added", "t", false, 1, Some(2), RefType::Funcref);
+        m.add_import_memory("added", "m", false, false, 1, Some(2), None);
+        m.add_import_global("added", "g", ValType::I32, false, false);
+        Some((ty.is_some(), crate::body::observe_module(m))) });
+    match r { Some(Some((with_f, Ok(oo)))) => { let what = format!("{} (after importing a function, a table, a memory and a global through the API)", name);
+            emit_maps(&what, wasm, &oo.module, &oo.em, &oo.aout, out);
+            let b = &oo.aout;
+            let got = ((n_imp(b, 0), b.funcs.len()), (n_imp(b, 1), b.tables.len()), (n_imp(b, 2), b.mems.len()), (n_imp(b, 3), b.globals.len()));
+            let want = ((n_imp(&a, 0) + with_f as usize, a.funcs.len()), (n_imp(&a, 1) + 1, a.tables.len()), (n_imp(&a, 2) + 1, a.mems.len()), (n_imp(&a, 3) + 1, a.globals.len()));
+            if got != want { out.push(v("entities-duplicated-or-lost-after-import", "C19 C04 C02", format!("{}: (imported, local) counts of functions / tables / memories / globals are {:?}, expected {:?}", what, got, want), wasm, format!("{:?}", got), format!("{:?}", want))); } }
+        Some(Some((_, Err(e)))) => out.push(v("output-undecodable", "C02 C19", format!("{}: after importing entities through the API the emitted module cannot be decoded: {}", name, e), wasm, String::new(), String::new())),
+        Some(None) => {}, None => out.push(v("walrus-panics-on-valid-module", "C02 C19", format!("{}: importing entities through the API then emitting panics", name), wasm, String::new(), String::new())) }
+}
+
 /// C13: debug names stay attached to the same entities.
-pub fn names(name: &str, wasm: &[u8], obs: &Observed, out: &mut Vec<Json>) {
+/// `synthetic`: the module was parsed with generate_synthetic_names_for_anonymous_items(true): every NON-EMPTY input name must still be attached to the
+/// corresponding entity; unnamed (or empty-named) entities may carry an invented name, so the converse checks are skipped
+pub fn names(name: &str, wasm: &[u8], obs: &Observed, synthetic: bool, out: &mut Vec<Json>) {
     use wasmparser::{BinaryReader, Name, NameSectionReader};
     type NM = BTreeMap<u32, String>;
     #[derive(Default, Debug)] struct N { module: Option<String>, funcs: NM, locals: BTreeMap<u32, NM>, types: NM, tables: NM, mems: NM, globals: NM, elems: NM, data: NM }
@@ -246,11 +269,12 @@ pub fn names(name: &str, wasm: &[u8], obs: &Observed, out: &mut Vec<Json>) {
             Name::Global(m) => n.globals = nm(m), Name::Element(m) => n.elems = nm(m), Name::Data(m) => n.data = nm(m), Name::Local(l) => { for f in l { let f = f.ok()?; n.locals.insert(f.index, nm(f.names)); } } _ => {} } } Some(n) };
     let (na, nb) = match (read(&obs.ain), read(&obs.aout)) { (Some(a), b) => (a, b.unwrap_or_default()), (None, _) => return };
     let mut bad = |what: String, o: String, e: String| out.push(v("names-not-preserved", "C13", format!("{}: {}", name, what), wasm, o, e));
-    if na.module != nb.module { bad("module name differs".into(), format!("{:?}", nb.module), format!("{:?}", na.module)); }
+    if na.module != nb.module && !(synthetic && na.module.is_none()) { bad("module name differs".into(), format!("{:?}", nb.module), format!("{:?}", na.module)); }
     let chk = |kind: &str, a: &NM, b: &NM, map: &dyn Fn(u32) -> Option<u32>, limit: usize, bad: &mut dyn FnMut(String, String, String)| {
         let mut want: NM = NM::new(); for (i, n) in a { if (*i as usize) < limit { if let Some(j) = map(*i) { want.insert(j, n.clone()); } } }   // later entries win when indices merge (type de-duplication)
-        if kind == "type" { for (j, n) in b { let ok = a.iter().any(|(i, m)| map(*i) == Some(*j) && m == n); if !ok { bad(format!("{} {} carries name {:?} which no corresponding input {} has", kind, j, n, kind), String::new(), String::new()); } }
+        if kind == "type" { for (j, n) in b { if synthetic { continue; } let ok = a.iter().any(|(i, m)| map(*i) == Some(*j) && m == n); if !ok { bad(format!("{} {} carries name {:?} which no corresponding input {} has", kind, j, n, kind), String::new(), String::new()); } }
             for (i, _) in a { if let Some(j) = map(*i) { if !b.contains_key(&j) { bad(format!("{} {} lost its name", kind, i), String::new(), String::new()); } } } }
+        else if synthetic { for (j, n) in &want { if !n.is_empty() && b.get(j) != Some(n) { bad(format!("{} {} lost or changed its name {:?} (synthetic names on)", kind, j, n), format!("{:?}", b.get(j)), format!("{:?}", n)); } } }
         else if &want != b { bad(format!("{} names differ", kind), format!("{:?}", b), format!("{:?}", want)); } };
     let rf = |i: u32| -> Option<u32> { let id = obs.pm.funcs.get(i as usize)?; obs.em.funcs.get(id).copied() };
     let rt = |i: u32| -> Option<u32> { let id = obs.pm.types.get(i as usize)?; obs.em.types.get(id).copied() };
@@ -265,7 +289,7 @@ pub fn names(name: &str, wasm: &[u8], obs: &Observed, out: &mut Vec<Json>) {
     chk("data", &na.data, &nb.data, &idn, a.data.len(), &mut bad);
     // no local name migrates: every name the OUTPUT attaches to a local of function j is a name the input attached to a local of the
     // corresponding function (same slot for parameters)
-    {   let ni0 = n_imp(a, 0); let total = ni0 + a.funcs.len();
+    if !synthetic {   let ni0 = n_imp(a, 0); let total = ni0 + a.funcs.len();
         for fi in 0..total as u32 { let fo = match rf(fi) { Some(x) => x, None => continue }; let outn = match nb.locals.get(&fo) { Some(x) => x, None => continue };
             let empty = NM::new(); let inn = na.locals.get(&fi).unwrap_or(&empty); let nparams = func_sig(a, fi).map(|s| s.0.len()).unwrap_or(0) as u32;
             for (slot, n) in outn { if *slot < nparams { if inn.get(slot) != Some(n) { bad(format!("output function {} (input function {}): parameter {} is named {:?} in the output, {:?} in the input", fo, fi, slot, n, inn.get(slot)), format!("{:?}", n), format!("{:?}", inn.get(slot))); } }
@@ -277,10 +301,10 @@ pub fn names(name: &str, wasm: &[u8], obs: &Observed, out: &mut Vec<Json>) {
         let (bi, bo) = match (obs.ain.code.get(*fi as usize - ni), obs.aout.code.get(fo as usize - n_imp(&obs.aout, 0))) { (Some(x), Some(y)) => (x, y), _ => continue };
         let nparams = func_sig(a, *fi).map(|s| s.0.len()).unwrap_or(0) as u32;
         let outn = nb.locals.get(&fo).cloned().unwrap_or_default();
-        for (li, n) in lnames { if *li < nparams && outn.get(li) != Some(n) { bad(format!("parameter {} of function {} lost or changed its name {:?}", li, fi, n), format!("{:?}", outn.get(li)), format!("{:?}", n)); } }
+        for (li, n) in lnames { if synthetic && n.is_empty() { continue; } if *li < nparams && outn.get(li) != Some(n) { bad(format!("parameter {} of function {} lost or changed its name {:?}", li, fi, n), format!("{:?}", outn.get(li)), format!("{:?}", n)); } }
         let locs = |ops: &Vec<(Option<String>, usize, &'static str)>| -> Vec<u32> { crate::body::normal_form(ops).iter().filter_map(|t| { for p in ["WOp (W_LocalGet ", "WOp (W_LocalSet ", "WOp (W_LocalTee "] { if let Some(x) = t.strip_prefix(p) { return x.trim_end_matches(')').parse().ok(); } } None }).collect() };
         let (li, lo) = (locs(&bi.ops), locs(&bo.ops));
-        if li.len() == lo.len() { for (x, y) in li.iter().zip(&lo) { if let Some(n) = lnames.get(x) { if outn.get(y) != Some(n) { bad(format!("local {} of function {} (named {:?}) is slot {} in the output, which is named {:?}", x, fi, n, y, outn.get(y)), format!("{:?}", outn.get(y)), format!("{:?}", n)); break; } } else if let Some(m) = outn.get(y) { bad(format!("output slot {} of function {} carries name {:?} but the corresponding input local {} is unnamed", y, fo, m, x), m.clone(), String::new()); break; } } }
+        if li.len() == lo.len() { for (x, y) in li.iter().zip(&lo) { if let Some(n) = lnames.get(x) { if synthetic && n.is_empty() { continue; } if outn.get(y) != Some(n) { bad(format!("local {} of function {} (named {:?}) is slot {} in the output, which is named {:?}", x, fi, n, y, outn.get(y)), format!("{:?}", outn.get(y)), format!("{:?}", n)); break; } } else if synthetic { continue; } else if let Some(m) = outn.get(y) { bad(format!("output slot {} of function {} carries name {:?} but the corresponding input local {} is unnamed", y, fo, m, x), m.clone(), String::new()); break; } } }
     }
 }
 
@@ -391,9 +415,11 @@ pub fn all_module_oracles(name: &str, wasm: &[u8], out: &mut Vec<Json>) {
     if amod::validate(wasm, feats).is_err() { return; }
     let mut mcfg = ModuleConfig::new(); mcfg.generate_producers_section(false);
     match catch(|| observe(wasm, &mut mcfg)) {
-        Some(Ok(obs)) => { structure(name, wasm, &obs, out); index_maps(name, wasm, &obs, out); names(name, wasm, &obs, out); features(name, wasm, &obs.out, out); }
+        Some(Ok(obs)) => { structure(name, wasm, &obs, out); index_maps(name, wasm, &obs, out); names(name, wasm, &obs, false, out); features(name, wasm, &obs.out, out); }
         Some(Err(e)) => if e.starts_with("parse:") { out.push(v("walrus-rejects-valid-module", "C05", format!("{}: {}", name, e), wasm, String::new(), String::new())) } else { out.push(v("output-undecodable", "C02", format!("{}: emitted module cannot be decoded: {}", name, e), wasm, String::new(), String::new())) },
         None => out.push(v("walrus-panics-on-valid-module", "C02 C05", format!("{}: parse or emit panics", name), wasm, String::new(), String::new())),
     }
-    customs(name, wasm, out); determinism(name, wasm, out); config(name, wasm, out); gc(name, wasm, out); emit_maps_after_import_move(name, wasm, out);
+    // names again with synthetic names switched on: every real name of the input stays where it was
+    { let mut scfg = ModuleConfig::new(); scfg.generate_producers_section(false).generate_synthetic_names_for_anonymous_items(true); if let Some(Ok(obs)) = catch(|| observe(wasm, &mut scfg)) { names(&format!("{} (synthetic names on)", name), wasm, &obs, true, out); } }
+    customs(name, wasm, out); determinism(name, wasm, out); config(name, wasm, out); gc(name, wasm, out); emit_maps_after_import_move(name, wasm, out); emit_maps_after_import_added(name, wasm, out);
 }
